@@ -162,7 +162,7 @@ PROP = {
     "streams": [
         {"name": "c09.hours"},   # all 60 day pillars x 24 hours through the instant view and the lunar-hour route
     ],
-    "ops": with_extra(c09_ops, eq_kinds=(9, 11), dep=True),
+    "ops": with_extra(c09_ops, eq_kinds=(9, 11), dep=True, lhour=True, ec_names=True),
     "extra_checks": [c09_search],
     "exhaustive": False,
     "rule": "c09.hours: 60 consecutive days x 24 hours = every (day pillar, hour) combination, instant view and lunar-hour route, vs the rules; "
